@@ -5,6 +5,7 @@ import enum
 import itertools
 import json
 import math
+import random
 
 from harness import common as C
 from harness import gen, model, ref
@@ -99,6 +100,10 @@ def run(ctx: C.Ctx):
                 'IntEnum/objects/long values × field values of all those kinds: key set vs the reference computed with Condition.evaluate '
                 '(TypeError of an unorderable comparison must be a TypeError both ways), and vs the Lean model when every value is a literal. '
                 'Non-trivial = distinct (class, instance, exclude, skip_defaults).')
+    ctx.rule += (' The slots per-field / Meta.skip_if / Meta.skip_defaults_if are populated in every combination. Histories: a nested class N '
+                 'with or without rules of its own, one or two outer classes whose recursive Meta carries skip rules, and a holder class '
+                 'without any Meta, dumped in random orders with N also on its own; the key set at every level of every step vs the '
+                 'reference under the documented cascade.')
     ncls = ctx.quick(160, 2500)
     reqs, pend = [], []
     idx = 0
@@ -110,7 +115,8 @@ def run(ctx: C.Ctx):
         meta_src = []
         meta_conds = {}
         all_lit = True
-        mode = rng.choice(['field', 'meta', 'both', 'defaults_if', 'plain'])
+        # which condition slots are populated: per field, Meta.skip_if, Meta.skip_defaults_if - every combination of the three
+        mode = rng.choice(['field', 'meta', 'both', 'defaults_if', 'plain', 'meta+defaults_if', 'meta+defaults_if', 'all'])
         for j in range(nf):
             name = f'fld{j}_val'
             f = {'name': name}
@@ -120,13 +126,13 @@ def run(ctx: C.Ctx):
                 f['dump_skip'] = True
             elif 'dflt_expr' in f and rng.random() < 0.15:
                 f['noinit'] = True
-            if mode in ('field', 'both') and rng.random() < 0.6 and not f.get('noinit'):
+            if mode in ('field', 'both', 'all') and rng.random() < 0.6 and not f.get('noinit'):
                 conds[name] = pick_cond(rng)
                 f['ann'] = rng.random() < 0.4
             fields.append(f)
-        if mode in ('meta', 'both') and rng.random() < 0.9:
+        if mode in ('meta', 'both') and rng.random() < 0.9 or mode in ('meta+defaults_if', 'all'):
             meta_conds['skip_if'] = pick_cond(rng)
-        if mode == 'defaults_if':
+        if mode in ('defaults_if', 'meta+defaults_if', 'all'):
             meta_conds['skip_defaults_if'] = pick_cond(rng)
         meta_sd = rng.choice([None, None, True, False])
         cname = model.fresh('C')
@@ -147,7 +153,7 @@ def run(ctx: C.Ctx):
                 for f in order:
                     if 'dflt_expr' in f and rng.random() < 0.35:
                         vals[f['name']] = eval(f['dflt_expr'])
-                    elif rng.random() < 0.4 and (conds or meta_conds):
+                    elif rng.random() < (0.4 if len(meta_conds) < 2 else 0.6) and (conds or meta_conds):
                         # the very comparison object of one of this class's conditions (equality / identity boundary)
                         cc = rng.choice(list(conds.values()) + list(meta_conds.values()))
                         vals[f['name']] = built.get('CV')[cc[1]] if cc[1] is not None else rng.choice(FIELD_VALUES)
@@ -202,6 +208,8 @@ def run(ctx: C.Ctx):
             break
     # ---- model correspondence on literal-only class models
     literal_stream(ctx, idx, reqs, pend)
+    # ---- histories over a nested class, a configured outer class and an unconfigured holder
+    nested_history_stream(ctx)
     if ctx.model_available:
         outs = ctx.driver.run(reqs)
         for (case, impl), o in zip(pend, outs):
@@ -236,12 +244,19 @@ def cond_expr(c):
     return f'{BUILDER[op]}(CV[{expr!r}])'
 
 
-def render(cname, fields, conds, meta_conds, meta_sd):
-    lines = ['@dataclass', f'class {cname}(JSONWizard):', '    class _(JSONWizard.Meta):', "        key_transform_with_dump = 'NONE'"]
-    if meta_sd is not None:
-        lines.append(f'        skip_defaults = {meta_sd}')
-    for k, c in meta_conds.items():
-        lines.append(f'        {k} = {cond_expr(c)}')
+def render(cname, fields, conds, meta_conds, meta_sd, style='meta', recursive=None):
+    """style: 'meta' (JSONWizard with an inner Meta), 'wizard' (JSONWizard, no Meta), 'plain' (a bare dataclass)"""
+    if style == 'meta':
+        lines = ['@dataclass', f'class {cname}(JSONWizard):', '    class _(JSONWizard.Meta):', "        key_transform_with_dump = 'NONE'"]
+        if recursive is not None:
+            lines.append(f'        recursive = {recursive}')
+        if meta_sd is not None:
+            lines.append(f'        skip_defaults = {meta_sd}')
+        for k, c in meta_conds.items():
+            lines.append(f'        {k} = {cond_expr(c)}')
+    else:
+        assert not meta_conds and meta_sd is None
+        lines = ['@dataclass', f'class {cname}(JSONWizard):' if style == 'wizard' else f'class {cname}:']
     order = [f for f in fields if 'dflt_expr' not in f] + [f for f in fields if 'dflt_expr' in f]
     for f in order:
         name = f['name']
@@ -257,8 +272,189 @@ def render(cname, fields, conds, meta_conds, meta_sd):
         elif f.get('noinit'):
             lines.append(f'    {name}: Any = field(init=False, default={d})')
         else:
-            lines.append(f'    {name}: Any' + (f' = {d}' if d is not None else ''))
+            lines.append(f'    {name}: {f.get("ann_src", "Any")}' + (f' = {d}' if d is not None else ''))
     return '\n'.join(lines) + '\n'
+
+
+# --------------------------------------------------------------------------- histories over nested classes
+# Field names that every key transform leaves alone, so that the comparison is about *which* fields are written only (the
+# spelling of a nested class's keys after it was reached through a configured class is the recorded finding
+# `shared-nested-config-leak`).
+NESTED_FIELD_NAMES = ['aa', 'bb', 'cc', 'dd']
+NEST_ANN = {'bare': '{0}', 'list': 'List[{0}]', 'optional': 'Optional[{0}]', 'dict': 'Dict[str, {0}]'}
+
+
+def _gen_fields(rng, names, allow_conds):
+    fields, conds = [], {}
+    for name in names:
+        f = {'name': name}
+        if rng.random() < 0.65:
+            f['dflt_expr'] = rng.choice(['None', '0', '5', "'x'", '2.5', "''", 'True'])
+        if rng.random() < 0.1:
+            f['dump_skip'] = True
+        if allow_conds and rng.random() < 0.3:
+            conds[name] = pick_cond(rng)
+            f['ann'] = rng.random() < 0.4
+        fields.append(f)
+    order = [f for f in fields if 'dflt_expr' not in f] + [f for f in fields if 'dflt_expr' in f]
+    return order, conds
+
+
+def _gen_rules(rng, at_least_one):
+    meta_conds, meta_sd = {}, None
+    while True:
+        if rng.random() < 0.5:
+            meta_sd = rng.choice([True, True, False])
+        if rng.random() < 0.45:
+            meta_conds['skip_if'] = pick_cond(rng)
+        if rng.random() < 0.3:
+            meta_conds['skip_defaults_if'] = pick_cond(rng)
+        if not at_least_one or meta_sd or meta_conds:
+            return meta_conds, meta_sd
+
+
+def _gen_vals(rng, order, conds, meta_conds, CV):
+    vals = {}
+    pool = list(conds.values()) + list(meta_conds.values())
+    for f in order:
+        if 'ann_src' in f:
+            continue
+        if 'dflt_expr' in f and rng.random() < 0.4:
+            vals[f['name']] = eval(f['dflt_expr'])
+        elif pool and rng.random() < 0.4:
+            cc = rng.choice(pool)
+            vals[f['name']] = CV[cc[1]] if cc[1] is not None else rng.choice(FIELD_VALUES)
+        else:
+            vals[f['name']] = rng.choice(FIELD_VALUES)
+    return vals
+
+
+def _vals_of(x, order):
+    return {f['name']: getattr(x, f['name']) for f in order}
+
+
+def _accept(got_keys, refs):
+    return any(r[0] == 'ok' and r[1] == got_keys for r in refs)
+
+
+def nested_history_stream(ctx, base=10_000_000):
+    """A nested class N (bare dataclass / JSONWizard without Meta / JSONWizard with rules of its own), one or two outer classes
+    whose Meta carries skip rules (recursive unless said otherwise) and a holder class without any Meta; the history dumps them
+    in a random order, N also on its own, every step with its own instance, exclude subset and skip_defaults argument.  At every
+    step the key set of the main class *and of every nested N* must be the reference selection: N's own rules, completed by the
+    rules of the main class it is reached through when that class's Meta is recursive, and by nothing else - whatever was
+    dumped before."""
+    from dataclass_wizard import asdict
+    n = ctx.quick(400, 5000)
+    for j in range(n):
+        i = base + j
+        if ctx.done(i):
+            break
+        if ctx.only is not None and ctx.only != i:
+            continue
+        rng = random.Random(f'C11:{ctx.seed}:nested-history:{j}')
+        # ---- the class family
+        N, O1, O2, H = (model.fresh(p_) for p_ in ('N', 'O', 'P', 'H'))
+        n_style = rng.choice(['plain', 'plain', 'wizard', 'meta'])
+        n_order, n_conds = _gen_fields(rng, rng.sample(NESTED_FIELD_NAMES, rng.randint(2, 4)), allow_conds=True)
+        n_mconds, n_sd = _gen_rules(rng, False) if n_style == 'meta' else ({}, None)
+        src = render(N, n_order, n_conds, n_mconds, n_sd, style=n_style)
+        outers = {}
+        for oname in [O1] + ([O2] if rng.random() < 0.35 else []):
+            o_order, o_conds = _gen_fields(rng, ['xx', 'yy'][:rng.randint(1, 2)], allow_conds=False)
+            shape = rng.choice(sorted(NEST_ANN))
+            o_order.insert(0, {'name': 'nn', 'ann_src': NEST_ANN[shape].format(N)})
+            o_mconds, o_sd = _gen_rules(rng, True)
+            rec = rng.choice([None, None, None, None, True, False])
+            outers[oname] = dict(order=o_order, conds=o_conds, mconds=o_mconds, sd=o_sd, shape=shape, recursive=rec is not False)
+            src += render(oname, o_order, o_conds, o_mconds, o_sd, style='meta', recursive=rec)
+        h_shape = rng.choice(sorted(NEST_ANN))
+        h_order = [{'name': 'nn', 'ann_src': NEST_ANN[h_shape].format(N)}, {'name': 'mm', 'dflt_expr': '2'}]
+        outers[H] = dict(order=h_order, conds={}, mconds={}, sd=None, shape=h_shape, recursive=False)
+        src += render(H, h_order, {}, {}, None, style=rng.choice(['plain', 'wizard']))
+        # ---- the history
+        steps = [N, O1, H] + ([O2] if O2 in outers else [])
+        rng.shuffle(steps)
+        steps = steps[:rng.randint(2, len(steps))]
+        if O1 not in steps:
+            steps.insert(rng.randint(0, len(steps)), O1)
+        steps += [rng.choice(steps) for _ in range(rng.choice([0, 0, 1, 2]))]
+        if not ctx.begin_case(i):
+            continue
+        try:
+            built = model.Built(T('any'), extra_src=SRC_EXTRA + src)
+        except Exception as e:
+            ctx.count('build_error')
+            ctx.notes.setdefault('build_errors', []).append(repr(e)[:300] + src[:300])
+            continue
+        try:
+            CV = built.get('CV')
+            NC = built.get(N)
+
+            def new_inner():
+                return NC(**_gen_vals(rng, n_order, n_conds, n_mconds, CV))
+
+            trace = []
+            case = {'src': src, 'history': trace}
+            for step_no, cname in enumerate(steps):
+                if cname == N:
+                    x = new_inner()
+                    order, conds, mconds, msd = n_order, n_conds, n_mconds, n_sd
+                    nested, n_eff = [], None
+                else:
+                    o = outers[cname]
+                    order, conds, mconds, msd = o['order'], o['conds'], o['mconds'], o['sd']
+                    vals = _gen_vals(rng, order, conds, mconds, CV)
+                    k_ = rng.choice([0, 1, 2])
+                    vals['nn'] = {'bare': new_inner, 'optional': lambda: rng.choice([None, new_inner()]),
+                                  'list': lambda: [new_inner() for _ in range(k_)],
+                                  'dict': lambda: {f'k{q}': new_inner() for q in range(k_)}}[o['shape']]()
+                    x = built.get(cname)(**vals)
+                    v = vals['nn']
+                    nested = [v] if isinstance(v, NC) else list(v.values()) if isinstance(v, dict) else list(v or [])
+                    # the rules N is dumped with below this class: its own, completed by the recursive Meta of the main class
+                    if o['recursive']:
+                        n_eff = (dict(mconds, **n_mconds), n_sd if n_sd is not None else msd)
+                    else:
+                        n_eff = (n_mconds, n_sd)
+                names = [f['name'] for f in order]
+                E = None if rng.random() < 0.5 else [nm for nm in names if rng.random() < 0.3]
+                sd = rng.choice([None, None, True, False])
+                kw = {}
+                if E is not None:
+                    kw['exclude'] = E
+                if sd is not None:
+                    kw['skip_defaults'] = sd
+                trace.append({'step': step_no, 'dump': cname, 'instance': repr(x)[:300], 'exclude': E, 'skip_defaults': sd})
+                ctx.seen('skip:history', {'src': src, 'step': step_no, 'x': repr(x)[:300], 'E': E, 'sd': sd})
+                try:
+                    d = asdict(x, **kw)
+                    got = ('ok', list(d.keys()))
+                except Exception as e:
+                    d, got = None, ('err', type(e).__name__, str(e)[:200])
+                top_refs = [reference(order, conds, mconds, msd, _vals_of(x, order), E, sd, CV, eager) for eager in (False, True)]
+                nested_refs = [[reference(n_order, n_conds, n_eff[0], n_eff[1], _vals_of(y, n_order), None, None, CV, eager)
+                                for eager in (False, True)] for y in nested]
+                snap = {'src': src, 'history': [dict(t) for t in trace]}
+                if got[0] == 'err':
+                    may_raise = any(r[0] == 'err' for r in top_refs) or any(r[0] == 'err' for rs in nested_refs for r in rs)
+                    if not (got[1] == 'TypeError' and may_raise):
+                        ctx.fail('skip:history', snap, f'step {step_no}: asdict({x!r:.200}, {kw}) gave {got!r}; reference selection {top_refs[0]!r}')
+                    continue
+                if not _accept(got[1], top_refs):
+                    ctx.fail('skip:history', snap, f'step {step_no}: asdict({x!r:.200}, {kw}) has keys {got[1]!r}; reference selection '
+                                                   f'{top_refs[0]!r} (lazy) / {top_refs[1]!r} (eager)')
+                if 'nn' in d and nested:
+                    dv = d['nn']
+                    dumped = [dv] if isinstance(dv, dict) and outers[cname]['shape'] in ('bare', 'optional') else \
+                        list(dv.values()) if isinstance(dv, dict) else list(dv)
+                    for y, dy, refs in zip(nested, dumped, nested_refs):
+                        if not (isinstance(dy, dict) and _accept(list(dy.keys()), refs)):
+                            ctx.fail('skip:history', snap, f'step {step_no}: inside asdict of {cname}, the nested {y!r:.200} was written with keys '
+                                                           f'{list(dy.keys()) if isinstance(dy, dict) else dy!r}; reference selection {refs[0]!r} '
+                                                           f'(rules in force for it: {n_eff!r:.300})')
+        finally:
+            built.close()
 
 
 def reference(order, conds, meta_conds, meta_sd, vals, E, sd, CV, eager):
